@@ -6,6 +6,7 @@ mod obs;
 mod oracle;
 mod props;
 mod render;
+mod scriptgen;
 mod scriptref;
 mod selftest;
 mod ser;
